@@ -82,6 +82,13 @@ CHECKS["C15"] = dict(
     technique="interval abstract interpretation (C integer semantics, interprocedural) + forward must-dataflow (ordered must-pass-through events) + call-graph who-may-call rule over the clang CFG",
 )
 
+CHECKS["C02"] = dict(
+    text="Static decision of structural necessary conditions of C02 over the prime-field module under the 256-, 255- and 381-bit configuration headers: every one of the seven selectable inversion algorithms returns normally only where fp_is_zero(a) was tested false, the zero side leaving by the error (INV0, forward must-dataflow with branch atoms - the default build selects one variant, the suite runs one); every exponentiation sibling answers 1 for the zero exponent and consults the sign of the exponent on every path returning a power (EXP-SIB); a truthy verdict of fp_srt implies a squareness test of the argument in every arm of the p mod 4 switch (SRT-VERDICT, the suite runs one prime per build); the five low-level routines whose raw result lies in [0, 2p) return only after a comparison with the modulus or its subtraction, not the carry test alone (CANON: the unreduced window [p, 2^k) is hit with probability about 2^-32..2^-2 depending on the prime and never checked by the suite, which has no canonical-form oracle); no function of the module stores through a const parameter (CONST-IN, parameter-write summaries over the call graph). Range checks of conversions are decided under C07 (RANGE-FP). Residues, Montgomery arithmetic, roots' values and agreement of algorithm variants are value properties and are not decided.",
+    design_ref="DESIGN.md section 3 (C02)",
+    note="Trusted: clang parser/CFG, extractor, the family tables (names of the inversion/exponentiation variants computed by pattern; the CANON family of five routines frozen from the tree, a vanished member is analysis-broken), parameter-write summaries (stores through casts are seen; stores through pointers kept inside const structs are not). Validated on every run by miniatures in sa/selftest/c02.c.",
+    technique="forward must-dataflow (guard dominance at normal returns, verdict-implication facts) + sibling agreement + parameter-write summaries over the clang CFG/call graph",
+)
+
 NOT_APPLICABLE = {
     "C10": "every clause is an equality of ring elements for all operand values; no guard, ordering or ownership structure whose violation is visible in the code's shape, and lazy-reduction bounds need a relational numeric domain that goto-analyzer's intervals cannot carry across the *_low calls",
     "C11": "group law, [k]Q, Frobenius eigenvalue and cofactor image are algebraic identities over runtime values; the structural clauses (decoders, buffers, regularity) of the ep2..ep8 siblings are decided under C07, C08 and C20",
